@@ -734,7 +734,7 @@ def run(tier, seed, t0):
         rep.violation({"broken_obligation": "Print Assumptions of Props/C17.v is not `Closed under the global context` "
                                             "for every theorem", "output": pa[-1500:]}, False)
 
-    findings = {f["id"]: f for f in lib_findings()}
+    findings = {f["id"]: f for f in lib_findings() if f.get("kind") == "finding"}
     seen_lib_findings = set()
 
     # ---- (b1) model = inlined text = documented formula on boundary-biased tuples (kernel-checked)
